@@ -385,7 +385,7 @@ func signs(n int) [][]int {
 	return out
 }
 
-func sgn(a int) int {
+func signOf(a int) int {
 	switch {
 	case a < 0:
 		return -1
@@ -402,7 +402,7 @@ func weakTriples() [][3]int {
 	for a := 0; a < 3; a++ {
 		for b := 0; b < 3; b++ {
 			for c := 0; c < 3; c++ {
-				t := [3]int{sgn(a - b), sgn(b - c), sgn(a - c)}
+				t := [3]int{signOf(a - b), signOf(b - c), signOf(a - c)}
 				if !seen[t] {
 					seen[t] = true
 					out = append(out, t)
